@@ -906,7 +906,7 @@ func (ds *Dataset) updateDataset(newItemCount int64, entities []*Entity) error {
 				}
 			}
 		}
-	} else if newItemCount > 0 {
+	} else if newItemCount > 0 && ds.isRegistered() {
 		dsInfo, err := ds.store.NamespaceManager.GetDatasetNamespaceInfo()
 		if err != nil {
 			return err
@@ -940,6 +940,18 @@ func (ds *Dataset) updateDataset(newItemCount int64, entities []*Entity) error {
 		}
 	}
 	return nil
+}
+
+// isRegistered reports whether the dataset registered under this dataset's name is still this dataset.
+// A batch that was in flight while its dataset was deleted (and perhaps created again under the same name)
+// must not update the items counter of whatever dataset carries the name now.
+func (ds *Dataset) isRegistered() bool {
+	cur, ok := ds.store.datasets.Load(ds.ID)
+	if !ok {
+		return false
+	}
+	registered, ok := cur.(*Dataset)
+	return ok && registered.InternalID == ds.InternalID
 }
 
 func (ds *Dataset) GetChangesWatermark() (uint64, error) {
